@@ -548,12 +548,16 @@ static int doesCertExpectCRL(psX509Cert_t *cert)
   from within the cert itself and on the revocation status if a g_CRL entry
   is found.
 */
+static int32_t internalVerifyCRL(psX509Cert_t *CA, psX509Crl_t *CRL,
+        psBool_t *verified);
+
 int32_t psCRL_determineRevokedStatusBDT(psX509Cert_t *cert,
         psBrokenDownTime_t *bdt)
 {
     psX509Crl_t *crl;
     int expectCrl;
     int32_t revoked;
+    int32_t authenticated;
 
     if (cert == NULL)
     {
@@ -582,30 +586,43 @@ int32_t psCRL_determineRevokedStatusBDT(psX509Cert_t *cert,
            This case happens if a CRL for an child certificate was
            fetched out-of-handshake and now a reconnection attempt is being
            made.  We now have the parent for that child cert and can
-           attempt to authenticate */
-        if (crl->authenticated == 0 && cert->next)
+           attempt to authenticate.
+           The parent at hand comes from the peer and has not been validated
+           itself at this point: what it vouches for counts for the
+           certificate being looked at only. Writing it into the cache
+           entry, which every other validation shares, let a peer with a
+           parent certificate of its own making "authenticate" a forged
+           CRL for everybody. */
+        authenticated = crl->authenticated;
+        if (authenticated == 0 && cert->next)
         {
-            psX509AuthenticateCRL(cert->next, crl, NULL);
+            psBool_t verified = PS_FALSE;
+
+            if (internalVerifyCRL(cert->next, crl, &verified) == PS_SUCCESS
+                    && verified == PS_TRUE)
+            {
+                authenticated = 1;
+            }
         }
 
         /* test it and set the status */
         revoked = internalCrlIsRevoked(cert, crl, bdt);
-        if (revoked == 0 && crl->authenticated == 1)
+        if (revoked == 0 && authenticated == 1)
         {
             cert->revokedStatus = CRL_CHECK_PASSED_AND_AUTHENTICATED;
 
         }
-        else if (revoked == 0 && crl->authenticated == 0)
+        else if (revoked == 0 && authenticated == 0)
         {
             cert->revokedStatus = CRL_CHECK_PASSED_BUT_NOT_AUTHENTICATED;
 
         }
-        else if (revoked == 1 && crl->authenticated == 1)
+        else if (revoked == 1 && authenticated == 1)
         {
             cert->revokedStatus = CRL_CHECK_REVOKED_AND_AUTHENTICATED;
 
         }
-        else if (revoked == 1 && crl->authenticated == 0)
+        else if (revoked == 1 && authenticated == 0)
         {
             cert->revokedStatus = CRL_CHECK_REVOKED_BUT_NOT_AUTHENTICATED;
 
@@ -777,24 +794,16 @@ static int32 internalMatchIssuer(psX509Cert_t *CA, psX509Crl_t *CRL)
 
   poolUserPtr is for the TMP_PKI pool
 */
-int32_t psX509AuthenticateCRL(psX509Cert_t *CA, psX509Crl_t *CRL,
-        void *poolUserPtr)
+/* Is CA the issuer of CRL, and does the signature of CRL verify under CA's
+   public key? *verified says so; the CRL itself is left untouched. */
+static int32_t internalVerifyCRL(psX509Cert_t *CA, psX509Crl_t *CRL,
+        psBool_t *verified)
 {
     int32 rc;
-
     psBool_t verifyResult = PS_FALSE;
     psVerifyOptions_t opts;
 
-    if (CA == NULL || CRL == NULL)
-    {
-        return PS_ARG_FAIL;
-    }
-    if (CRL->authenticated == 1)
-    {
-        /* Going to have to assume caller knows what they are doing */
-        psTraceCrypto("WARNING: this CRL has already been authenticated\n");
-    }
-    CRL->authenticated = PS_FALSE;
+    *verified = PS_FALSE;
 
     /* A few tests to see if this CA is the true issuer of the CRL */
     if ((rc = internalMatchIssuer(CA, CRL)) < 0)
@@ -824,6 +833,33 @@ int32_t psX509AuthenticateCRL(psX509Cert_t *CA, psX509Crl_t *CRL,
             psTraceIntCrypto("psVerifySig failed: %d\n", rc);
             return rc;
         }
+    }
+
+    *verified = verifyResult;
+    return PS_SUCCESS;
+}
+
+int32_t psX509AuthenticateCRL(psX509Cert_t *CA, psX509Crl_t *CRL,
+        void *poolUserPtr)
+{
+    int32 rc;
+    psBool_t verifyResult = PS_FALSE;
+
+    if (CA == NULL || CRL == NULL)
+    {
+        return PS_ARG_FAIL;
+    }
+    if (CRL->authenticated == 1)
+    {
+        /* Going to have to assume caller knows what they are doing */
+        psTraceCrypto("WARNING: this CRL has already been authenticated\n");
+    }
+    CRL->authenticated = PS_FALSE;
+
+    rc = internalVerifyCRL(CA, CRL, &verifyResult);
+    if (rc != PS_SUCCESS)
+    {
+        return rc;
     }
 
     if (verifyResult == PS_TRUE)
